@@ -17,6 +17,7 @@ import (
 
 	"ivgverif/internal/gen"
 	"ivgverif/internal/rec"
+	"ivgverif/internal/ref"
 	"ivgverif/internal/run"
 )
 
@@ -44,7 +45,7 @@ func init() {
 				}
 				return 80_000
 			}, Run: c17Renderer,
-				Min: map[string]int64{"pairs": 60000, "A_truncated_stream": 10000, "A_decode_error": 10000, "A_mid_path": 5000, "B_gradient_from_default_registers": 5000, "B_smooth_first": 5000, "draws_compared": 50000, "pixel_pairs": 2000, "A_other_rectangle": 10000}},
+				Min: map[string]int64{"pairs": 60000, "A_truncated_stream": 10000, "A_decode_error": 10000, "A_mid_path": 5000, "B_gradient_from_default_registers": 5000, "B_smooth_first": 5000, "draws_compared": 50000, "pixel_pairs": 2000, "A_other_rectangle": 10000, "B_viewbox_is_A_viewbox_moved": 3000, "B_palette_equals_A_palette": 3000}},
 		},
 	})
 }
@@ -351,6 +352,21 @@ func c17Renderer(c *run.Ctx, idx uint64) {
 	if r.Bool() {
 		vbB = ivg.ViewBox{MinX: float32(r.Uniform(-60, 0)), MinY: float32(r.Uniform(-60, 0)), MaxX: float32(r.Uniform(1, 60)), MaxY: float32(r.Uniform(1, 60))}
 		palB = gen.Palette(r)
+	}
+	// What the earlier graphic's metadata was matters too: B's viewBox is
+	// often A's moved elsewhere (same size, so the same scale factors), and
+	// B's palette often equals A's ("nothing changed" shortcuts in Reset).
+	if mA, e := ref.ParseMeta(bytesA); e == nil && r.Chance(1, 3) {
+		w, h := float64(mA.ViewBox.MaxX)-float64(mA.ViewBox.MinX), float64(mA.ViewBox.MaxY)-float64(mA.ViewBox.MinY)
+		if w > 0.5 && h > 0.5 && w < 1e4 && h < 1e4 && math.Abs(float64(mA.ViewBox.MinX)) < 1e4 && math.Abs(float64(mA.ViewBox.MinY)) < 1e4 {
+			dx, dy := float32(r.Range(-20, 20)), float32(r.Range(-20, 20))
+			vbB = ivg.ViewBox{MinX: mA.ViewBox.MinX + dx, MinY: mA.ViewBox.MinY + dy, MaxX: mA.ViewBox.MaxX + dx, MaxY: mA.ViewBox.MaxY + dy}
+			c.Count("B_viewbox_is_A_viewbox_moved", 1)
+		}
+		if r.Bool() {
+			palB = mA.Palette
+			c.Count("B_palette_equals_A_palette", 1)
+		}
 	}
 	var eB encode.Encoder
 	eB.Reset(vbB, palB)
